@@ -18,7 +18,7 @@ NAMESPACES = [
 LOCALS = ["a", "b", "c", "g", "name", "a1", "a2", "é", "", "x-y", "knows", "Z"]
 LEXES = ["", "a", "hello", "héllo wörld", "1", "42", "x\ny", "😀", "a" * 40, " "]
 LANGS_11 = ["en", "pl", "en-gb", "de"]
-LANGS_GEN = ["en", "pl", "en-GB", "DE", "x-private"]
+LANGS_GEN = ["en", "pl", "en-GB", "en-gb", "DE", "de", "x-private"]
 DATATYPES_UNKNOWN = [
     "http://ex.org/dt/a", "http://ex.org/dt/b", "urn:dt:c", "http://ex.org/dt#d",
     "dtnosep", "http://ex.org/dt/é",
@@ -140,7 +140,10 @@ def statements(rng: random.Random, n: int, arity: int, mode: str = "generic",
                 st.append(g_run)
                 continue
             if prev is not None and rng.random() < p_repeat:
-                st.append(prev[i])
+                t = prev[i]
+                if t[0] == "lit" and rng.random() < .25:
+                    t = near_twin(rng, t, mode)      # equal-looking but different term right after the original
+                st.append(t)
             else:
                 st.append(v.term(slot))
         if arity == 4:
@@ -148,6 +151,21 @@ def statements(rng: random.Random, n: int, arity: int, mode: str = "generic",
         prev = tuple(st)
         out.append(prev)
     return out
+
+
+def near_twin(rng: random.Random, t: tuple, mode: str) -> tuple:
+    """A literal that differs from t only in a detail an over-eager equality might ignore."""
+    _, lex, lang, dt = t
+    if lang and mode != "rdf11":
+        swapped = lang.swapcase() if lang.swapcase() != lang else lang
+        return ("lit", lex, rng.choice([swapped, lang.upper(), lang.lower()]), None)
+    if not lang and not dt:
+        return ("lit", lex, None, XSD_STRING) if rng.random() < .5 else ("lit", lex + " ", None, None)
+    if dt == XSD_STRING:
+        return ("lit", lex, None, None)
+    if dt:
+        return ("lit", lex, None, dt + "x") if rng.random() < .5 else ("lit", lex, None, None)
+    return t
 
 
 def need_of(stmts: list[tuple], physical: int, prefixes_enabled: bool,
